@@ -37,7 +37,8 @@ TRUSTED = [
     "circ_wf (parameter / qubit counts per gate signature, qubit indices < N and distinct, N > 0 - the exporter checks none of these); both guards and "
     "the acceptance itself are additionally EVALUATED (vm_compute of strict_parse / wf / shapes_ok / circ_wf on the model's own text) on every generated circuit",
     "translators tools/translate/qasm_tr.py and gates_tr.py (fail-closed)",
-    "QubitCircuit.gates is read through the public attributes name/targets/controls/arg_value/classical_controls of Gate and "
+    "QubitCircuit.gates is read through the public attributes name/targets/controls/arg_value/classical_controls of Gate (the model's cc flag is the "
+    "truthiness of classical_controls, whatever classical_control_value is) and "
     "targets/classical_store of Measurement; 0-d arrays, numpy integer qubit indices and gates with a wrong number of parameters are not modelled",
     "equivalence: per record of measurement outcomes, states agree up to a unit scalar",
 ]
@@ -94,7 +95,7 @@ def build_circuit(c):
             qc.add_measurement("M", targets=[o["meas"][0]], classical_store=o["meas"][1])
         else:
             qc.add_gate(o["gate"], targets=list(o["targets"]), controls=list(o["controls"]) or None, arg_value=build_arg(o["arg"]),
-                        classical_controls=o.get("cc"))
+                        classical_controls=o.get("cc"), classical_control_value=o.get("ccv"))
     return qc
 
 
@@ -217,12 +218,14 @@ def gen_circuit(rng, bad=None):
         ops.insert(rng.randrange(len(ops) + 1), {"gate": name, "targets": qs[cc:], "controls": qs[:cc], "arg": arg})
     elif bad == "classical_control":
         gs = [o for o in ops if "gate" in o]
-        if not gs or not ncb:
-            c["ncb"] = ncb = max(ncb, 1)
-            gs = [o for o in ops if "gate" in o]
-            if not gs:
-                return gen_circuit(rng, bad)
-        rng.choice(gs)["cc"] = [rng.randrange(ncb)]
+        if not gs:
+            return gen_circuit(rng, bad)
+        k = rng.randint(1, 3)
+        c["ncb"] = ncb = max(ncb, k)
+        o = rng.choice(gs)
+        o["cc"] = rng.sample(range(ncb), k)
+        # the value the classical bits are compared with: every value incl. 0, and the default (None = 2**k-1)
+        o["ccv"] = rng.choice([None, 0, 0] + list(range(2 ** k)))
     elif bad == "nonfinite":
         gs = [o for o in ops if "gate" in o and o["arg"]["vals"]]
         if not gs:
@@ -272,7 +275,7 @@ def oracle(c, qc, text, err, rng=None):
         return None
     if not exportable(c) and any(("gate" in o and (o["gate"] in NON_EXPORTABLE or o.get("cc"))) or ("meas" in o and o["meas"][1] is None)
                                  for o in c["ops"]):
-        return (text[-200:], "refused with an error", "a non-exportable operation is exported")
+        return (dict(text_tail=text[-200:], action=_cc_action(c, qc, text)), "refused with an error", "a non-exportable operation is exported")
     semicolon_only = False
     try:
         nq, nc, prims = OQ.elaborate(OQ.parse(text))
@@ -315,6 +318,33 @@ def oracle(c, qc, text, err, rng=None):
     if semicolon_only:
         return ([l for l in text.splitlines() if MEAS_LINE.match(l)][:3], "measure q[i] -> c[j];", SEMI)
     return None
+
+
+def _cc_action(c, qc, text):
+    """An export that should have been refused succeeded: run the circuit and the re-imported text for EVERY value of the classical
+    bits (incl. non-zero ones: a dropped classical condition is invisible when all bits are 0 and the condition value is 0) on a
+    fixed state and report the first difference.  Only for circuits without measurements (run is deterministic)."""
+    if any("meas" in o for o in c["ops"]):
+        return "not compared (circuit has measurements)"
+    import itertools
+    from qutip import Qobj
+    rq, rerr = C4.run_impl(text)
+    if rq is None:
+        return "read_qasm cannot re-import the text: " + str(rerr)
+    r = np.random.RandomState(7)
+    n = qc.N
+    psi = r.normal(size=2 ** n) + 1j * r.normal(size=2 ** n)
+    psi /= np.linalg.norm(psi)
+    st = Qobj(psi.reshape(-1, 1), dims=[[2] * n, [1] * n])
+    for cb in itertools.product([0, 1], repeat=max(qc.num_cbits, 1)):
+        try:
+            want = qc.run(st, cbits=list(cb)[:qc.num_cbits] or None).full().ravel()
+            got = rq.run(st, cbits=list(cb)[:rq.num_cbits] or None).full().ravel()
+        except Exception as e:
+            return f"classical bits {list(cb)}: {type(e).__name__}: {e}"
+        if not OQ.same_up_to_phase(want, got):
+            return f"with classical bits {list(cb)} the re-imported circuit acts differently from the circuit"
+    return "same action for every value of the classical bits"
 
 
 MEAS_LINE = re.compile(r"(?m)^(measure q\[\d+\] -> c\[\d+\])$")
@@ -498,6 +528,21 @@ def _stream(ctx, n_ok, n_bad):
             arg = {"kind": "none", "vals": []} if v is None else {"kind": "scalar", "vals": [enc_num(v)]}
             qs = rng.sample(range(3), nc + nt)
             cases.append(("sweep", {"N": 3, "ncb": 0, "ops": [{"gate": name, "targets": qs[nc:], "controls": qs[:nc], "arg": arg}]}))
+    # classically controlled variants (must all be refused): every exportable gate kind x 1..3 classical controls x every
+    # control value 0..2**k-1 and the default None
+    for name, (nc, nt) in EXPORTABLE.items():
+        arg = {"kind": "none", "vals": []}
+        if name in ONE_PARAM:
+            arg = {"kind": "scalar", "vals": [enc_num(0.5)]}
+        elif name == "QASMU":
+            arg = {"kind": "list", "vals": [enc_num(0.5), enc_num(-1.25), enc_num(2)]}
+        for k in (1, 2, 3):
+            for v in [None] + list(range(2 ** k)):
+                qs = rng.sample(range(3), nc + nt)
+                ops = [{"gate": name, "targets": qs[nc:], "controls": qs[:nc], "arg": arg, "cc": rng.sample(range(3), k), "ccv": v}]
+                if rng.random() < 0.5:
+                    ops.insert(rng.randrange(2), {"gate": "SNOT", "targets": [rng.randrange(3)], "controls": [], "arg": {"kind": "none", "vals": []}})
+                cases.append(("classical-control", {"N": 3, "ncb": 3, "ops": ops}))
     for _ in range(n_ok):
         cases.append(("random", gen_circuit(rng)))
     for i in range(n_bad):
@@ -508,7 +553,8 @@ def _stream(ctx, n_ok, n_bad):
 def correspond(ctx):
     corr = Corr(rule="circuits of 1-4 qubits over the 19 exportable gates (each gate x 19 special parameter values: 0, 0.0, negative, 1e-9, "
                      "1e12, 1e16, 5e-324, ints; QASMU with list / tuple / ndarray parameters, numpy scalars) + random circuits with "
-                     "measurements + circuits with one non-exportable gate / classical control / inf / nan / measurement without store; "
+                     "measurements + every exportable gate with 1-3 classical controls and every control value 0..2**k-1 / default (must be refused) + "
+                     "circuits with one non-exportable gate / classical control / inf / nan / measurement without store; "
                      "non-trivial = has a parameter, a definition or a measurement")
     cases = _stream(ctx, ctx.n(220, 2500), ctx.n(60, 500))
     circs = [c for _, c in cases]
